@@ -156,7 +156,7 @@ theorem C17_goodbye_first_partial (h : Host) (hidle : h.stage = .idle) (hnd : h.
       obtain ⟨hb', ob⟩ := vb
       simp only [hb, Option.bind] at hr
       obtain ⟨s2, p2, q2, e2, r2, rfl⟩ := run_cons_mid ha' .closeGoodbye m2 hb' ob hb
-      simp only [step, st1, moreGoodbyes, register_broadcasts, Option.some.injEq, Prod.mk.injEq] at e2
+      simp only [step, st1, moreGoodbyes, register_broadcasts] at e2
       obtain ⟨rfl, rfl⟩ := e2
       obtain ⟨d2, st2, g2, t2, c2⟩ := mid_run m2 hm2 _ hb' q2 r2
       simp only at d2 st2 g2 t2
